@@ -67,7 +67,7 @@ Proof. induction l as [|x r IH]; cbn; [reflexivity|]. rewrite IH. reflexivity. Q
 
 (** Each element is handled by exactly the first member that knows it: the
     destinations of all other members are untouched. *)
-Lemma offer_first_owner e cur : forall pre c post spre s spost s1 i1,
+Lemma offer_first_owner e cur : is_value e = false -> forall pre c post spre s spost s1 i1,
   length pre = length spre ->
   Forall2 (fun ci si => exists si', eval_single ci si false e cur = Ok (AUnknown, si', cur)) pre spre ->
   eval_single c s false e cur = Ok (AConsumed, s1, i1) ->
@@ -76,24 +76,26 @@ Lemma offer_first_owner e cur : forall pre c post spre s spost s1 i1,
               map pend ss' = map pend (spre ++ s1 :: spost) /\
               map gsts ss' = map gsts (spre ++ s1 :: spost).
 Proof.
+  intros Hv. unfold offer. rewrite Hv. cbn [andb].
   induction pre as [|c0 pre IH]; intros c post spre s spost s1 i1 Hlen Hun Hc.
-  - destruct spre; [|discriminate]. cbn [app offer]. rewrite Hc. cbn [bind].
-    eexists. split; [reflexivity|]. destruct (is_value e); cbn [orb map]; splits; auto;
+  - destruct spre; [|discriminate]. cbn [app offer_sel]. rewrite Hc. cbn [bind].
+    eexists. split; [reflexivity|]. rewrite Hv. cbn [orb map]; splits; auto;
       rewrite ?map_arts_forget; f_equal; clear; induction spost as [|x r IH]; cbn; auto; rewrite IH; reflexivity.
   - destruct spre as [|s0 spre]; [discriminate|]. inversion Hun as [|? ? ? ? (s0' & H0) Hr]; subst.
-    cbn [app offer]. rewrite H0. cbn [bind].
+    cbn [app offer_sel]. rewrite H0. cbn [bind].
     destruct (IH c post spre s spost s1 i1 ltac:(cbn in Hlen; lia) Hr Hc) as (ss' & Ho & Ha & Hp & Hg).
     rewrite Ho. cbn [bind]. eexists. split; [reflexivity|].
     destruct (eval_single_unknown _ _ _ _ _ _ _ H0) as (A1 & A2 & A3 & _).
-    destruct (is_value e); cbn [orb map forget_last arts pend gsts]; rewrite ?A1, ?A2, ?A3, ?Ha, ?Hp, ?Hg; auto.
+    rewrite Hv. cbn [orb map forget_last arts pend gsts]; rewrite ?A1, ?A2, ?A3, ?Ha, ?Hp, ?Hg; auto.
 Qed.
 
 (** when every member answers "unknown" the group evaluation ends with an exception *)
-Lemma offer_all_unknown e cur : forall cs ss,
+Lemma offer_all_unknown e cur : is_value e = false -> forall cs ss,
   Forall2 (fun ci si => exists si', eval_single ci si false e cur = Ok (AUnknown, si', cur)) cs ss ->
   exists ss', offer false cs ss e cur = Ok (AUnknown, ss', cur).
 Proof.
-  induction cs as [|c cr IH]; intros ss H; inversion H as [|? ? ? ? (s' & H0) Hr]; subst; cbn [offer].
+  intros Hv. unfold offer. rewrite Hv. cbn [andb].
+  induction cs as [|c cr IH]; intros ss H; inversion H as [|? ? ? ? (s' & H0) Hr]; subst; cbn [offer_sel].
   - eauto.
   - rewrite H0. cbn [bind]. destruct (IH _ Hr) as (ss' & Ho). rewrite Ho. cbn [bind]. eauto.
 Qed.
@@ -113,11 +115,11 @@ Qed.
 Definition gflag (k : key) (req : list key) : argdef :=
   {| a_key := k; a_kind := DBool; a_vmode := VMNone; a_mand := false; a_multi := false; a_sep := 44%N;
      a_clear := false; a_sort := false; a_uniq := false; a_uniq_err := false; a_checks := []; a_fmts := [];
-     a_card := CardMax 1; a_excl := []; a_req := req; a_depr := false |}.
+     a_card := CardMax 1; a_excl := []; a_req := req; a_depr := false; a_mix := false |}.
 Definition gvec (k : key) : argdef :=
   {| a_key := k; a_kind := DVecInt; a_vmode := VMRequired; a_mand := false; a_multi := true; a_sep := 44%N;
      a_clear := false; a_sort := false; a_uniq := false; a_uniq_err := false; a_checks := []; a_fmts := [];
-     a_card := CardNone; a_excl := []; a_req := []; a_depr := false |}.
+     a_card := CardNone; a_excl := []; a_req := []; a_depr := false; a_mix := false |}.
 Definition mk_cfg (ds : list argdef) (gs : list gcon) : cfg :=
   {| args := ds; gcons := gs; abbr := true; fixed_notify := true |}.
 
@@ -140,6 +142,25 @@ Definition grp3 : list cfg :=
   [mk_cfg [gflag (key_of_char 120%N) []] []; mk_cfg [gvec (key_of_char 108%N)] []].
 Definition grp3_inits := [[VBool false]; [VInts []]].
 Definition argv_l1x2 : list str := [[45; 108]; [49]; [45; 120]; [50]]%N.
+
+(** member a: positional string; member b: multi-value -l.  Line: -l 1 2 *)
+Definition gpos : argdef :=
+  {| a_key := POSKEY; a_kind := DStr; a_vmode := VMRequired; a_mand := false; a_multi := false; a_sep := 44%N;
+     a_clear := false; a_sort := false; a_uniq := false; a_uniq_err := false; a_checks := []; a_fmts := [];
+     a_card := CardMax 1; a_excl := []; a_req := []; a_depr := false; a_mix := false |}.
+Definition grp5 : list cfg := [mk_cfg [gpos] []; mk_cfg [gvec (key_of_char 108%N)] []].
+Definition grp5_inits := [[VStr []]; [VInts []]].
+Definition argv_l12 : list str := [[45; 108]; [49]; [50]]%N.
+
+(** the free value 2 follows the multi-value argument -l: a single handler
+    appends it to -l; with the members asked in creation order it became the
+    positional argument of the first member *)
+Lemma group_free_value_order :
+  (exists ss, eval_group false false grp5 grp5_inits argv_l12 = Ok ss /\
+              map (fun s => map val (arts s)) ss = [[VStr []]; [VInts [1; 2]%Z]]) /\
+  (exists ss, eval_group true false grp5 grp5_inits argv_l12 = Ok ss /\
+              map (fun s => map val (arts s)) ss = [[VStr [50%N]]; [VInts [1%Z]]]).
+Proof. split; eexists; split; vm_compute; reflexivity. Qed.
 
 Lemma pinned_group_refuted :
   is_ok (eval_group false true grp1 grp1_inits argv_l_x) = true /\
